@@ -157,3 +157,22 @@ PROPS["C04"] = {
     "thorough": {"stages": [{"kind": "replay"}, {"kind": "rc", "procs": 16, "cases": 80000, "maxlen": 2400},
                             {"kind": "fuzz", "workers": 16, "seconds": 240, "maxlen": 2400}]},
 }
+
+PROPS["C10"] = {
+    "source": "c10_router.cc",
+    "level": "exploration",
+    "rule": ("choice-stream decoded by construction into a history of 1-16 add/remove operations (<=12 live patterns; methods GET/POST/PUT/DELETE/HEAD; 0-4 segments over fixed {a,b,c}, "
+             "parameters {:x,:y}, wildcard *, optional :o? in final position; written with random duplicate/leading/trailing slashes; removes only of live routes; duplicate adds must throw) "
+             "followed by 1-30 queries (method x path of 0-5 segments over {a,b,c,d} with random extra slashes) routed through Rest::Router::route. Reference model: list of live patterns, "
+             "naive matcher, winner = lexicographic minimum of the per-segment class vector fixed<parameter<optional<wildcard (ties accepted either way and counted), bindings in order; "
+             "no match under the method -> NotAllowed iff the model matches under another method, else NotFound / not-found handler exactly once. Non-trivial = >=2 patterns match one query, "
+             "or a 405 case, or the history contains a remove; distinct = hash of (history, queries). oracle_subchecks = queries routed."),
+    "engine": "rapidcheck+libFuzzer",
+    "technique": "model-based property testing (rapidcheck, libFuzzer on the same case function): add/remove histories and queries against a naive reference router with an explicit precedence order",
+    "level_text": "Model-based generated-history search; the reference matcher shares no code with the segment tree. Exploration only. The Allow header's method set is checked on the wire by the C09 harness (in-process the response writer has no transport).",
+    "level_note": "Optional segments are generated in final position only (non-final optionals are not pinned by docs or tests); ties between equal class vectors (':x' vs ':y', a route ending where another has an absent optional) are accepted either way.",
+    "assumptions": ["precedence = lexicographic order of per-segment classes, as stated in the property"],
+    "quick": {"stages": [{"kind": "replay"}, {"kind": "rc", "procs": 8, "cases": 15000, "maxlen": 300}]},
+    "thorough": {"stages": [{"kind": "replay"}, {"kind": "rc", "procs": 16, "cases": 150000, "maxlen": 300},
+                            {"kind": "fuzz", "workers": 16, "seconds": 200, "maxlen": 300}]},
+}
